@@ -12,6 +12,8 @@ theorem paths_step (hi : Inv s) (h : step s l = some s') :
   have h2 := hi.nondetPath
   have h4 := hi.othersNotM l.tid
   have h5 := hi.mainIsM
+  have hA := ph_of_pastChk hi l.tid
+  have hB := ph_of_inTask hi l.tid
   step_cases h
   all_goals (
     by_cases h0 : l.tid = 0
@@ -25,6 +27,8 @@ theorem flags_step (hi : Inv s) (h : step s l = some s') :
   have h1 := hi.flags
   have h4 := hi.othersNotM l.tid
   have h5 := hi.mainIsM
+  have hA := ph_of_pastChk hi l.tid
+  have hB := ph_of_inTask hi l.tid
   step_cases h
   all_goals (
     by_cases h0 : l.tid = 0
@@ -43,6 +47,8 @@ theorem goneAll_step (hi : Inv s) (h : step s l = some s') :
   have h6 := fun a b => alive_zero_gone hi a b u
   have h7 := hi.nondetPath
   have h8 := hi.liveHandle l.tid
+  have hA := ph_of_pastChk hi l.tid
+  have hB := ph_of_inTask hi l.tid
   step_cases h
   all_goals (
     by_cases h0 : l.tid = 0 <;> by_cases ht : u = l.tid <;>
@@ -61,6 +67,8 @@ theorem doneAll_step (hi : Inv s) (h : step s l = some s') :
   have h4 := hi.othersNotM l.tid
   have h5 := hi.mainIsM
   have h8 := hi.liveHandle l.tid
+  have hA := ph_of_pastChk hi l.tid
+  have hB := ph_of_inTask hi l.tid
   step_cases h
   all_goals (
     by_cases h0 : l.tid = 0 <;> by_cases ht : u = l.tid <;>
